@@ -693,3 +693,43 @@ class InterfaceBake(Contract):
 
 CONTRACTS = [ResolveFieldValueOrError(), WrapsWithDirectives(), DirectiveExecutor(), ResolverExecutor(), ComputeDirectiveNodes(), ScalarBake(), EnumTypeBake(), EnumValueBake(), InputFieldBake(), ArgumentBake(), FieldBake(), InputObjectBake(), InterfaceBake()]
 LEMMAS = []
+
+
+class DirectiveBake(Contract):
+    """Directive.bake: the decorated implementation (whose on_* hooks wraps_with_directives will pick) and its arguments coercer (the directive's own
+    or the schema default) are stored on the directive definition of THAT name; a missing implementation or an unknown directive is refused"""
+    key = 'tartiflette/directive/directive.py::Directive.bake'
+    property_ids = ('C13', 'C17')
+    params = ['self', 'schema']
+    self_class = 'Directive'
+    modifies_fields = ('implementation', 'arguments_coercer')
+
+    def _def(self, A):
+        return lookup(V.ditems(attr0(A['schema'], '_directive_definitions')), attr0(A['self'], 'name'))
+
+    def pre(self, A, st):
+        me, s = A['self'], A['schema']
+        d = self._def(A)
+        ac = attr0(me, '_arguments_coercer')
+        return [('directive', z3.And(V.oref(me) >= 0, V.is_Str(attr0(me, 'name')), z3.Or(attr0(me, '_implementation') == V.None_, z3.And(V.is_Obj(attr0(me, '_implementation')),
+                                     _obj_truthy(attr0(me, '_implementation')))), z3.Or(ac == V.None_, V.is_Fun(ac)))),
+                ('schema', z3.And(exact(s, 'GraphQLSchema'), V.oref(s) >= 0, V.is_Dict(attr0(s, '_directive_definitions')), V.is_Fun(attr0(s, 'default_arguments_coercer')))),
+                ('definition', z3.Implies(d != V.Missing, z3.And(exact(d, 'GraphQLDirective'), V.oref(d) >= 0)))]
+
+    def post(self, A, st0, out):
+        me, s, st = A['self'], A['schema'], out.st
+        impl, d, ac = attr0(me, '_implementation'), self._def(A), attr0(me, '_arguments_coercer')
+        if out.kind == 'raise':
+            return [('refused_only_for_a_reason', z3.Or(z3.And(impl == V.None_, exact(out.value, 'MissingImplementation')),
+                                                        z3.And(impl != V.None_, d == V.Missing, exact(out.value, 'UnknownDirectiveDefinition'))))]
+        return [('accepted_only_for_a_known_directive', z3.And(impl != V.None_, d != V.Missing)),
+                ('implementation_on_the_named_definition', fld(st, 'implementation', d) == impl),
+                ('own_arguments_coercer_or_the_schema_default', fld(st, 'arguments_coercer', d) == z3.If(ac != V.None_, ac, attr0(s, 'default_arguments_coercer')))]
+
+
+def _obj_truthy(o):
+    from pyvc.symexec import _obj_bool
+    return _obj_bool(o)
+
+
+CONTRACTS.append(DirectiveBake())
